@@ -117,6 +117,19 @@ func levelHelper(p *Prog, h *ssa.Function) bool {
 	if h.Signature.Recv() != nil {
 		first = 1
 	}
+	// … or the node under construction (`parseNextFactor(left *term)`): a piece of a level's body, not a level
+	if ev := p.Iface("IEvaluator"); ev != nil {
+		for i, pa := range h.Params {
+			if i < first {
+				continue
+			}
+			if pt, ok := pa.Type().(*types.Pointer); ok {
+				if _, isStruct := pt.Elem().Underlying().(*types.Struct); isStruct && types.Implements(pt, ev) {
+					return true
+				}
+			}
+		}
+	}
 	isParam := func(v ssa.Value) bool {
 		pa, ok := v.(*ssa.Parameter)
 		return ok && pa.Parent() == h && indexOfParam(h, pa) >= first
